@@ -1,5 +1,5 @@
 // Prelude of the Verus units cv_searcher_back / cv_searcher_back_f7 (ReverseSearcher; same declarations as cv_searcher plus
-// the assumed contract of find_last_match_before)
+// the assumed contract of find_last_match_before, see j6_find_last_match_before)
 // -- text of the forward unit's prelude follows --
 // Prelude of the Verus unit cv_searcher (forward std::str::pattern::Searcher of src/api.rs, nested module pattern_impl).
 // Re-stated declarations (rule X6, checked textually): RegexSearcher's six fields, SearchStep (std, unstable feature `pattern`:
@@ -70,7 +70,8 @@ pub struct RegexSearcher<'r, 't> {
 
 
 /// the last match of the regex's match sequence on `text` that ends at or before offset pos (contract of
-/// find_last_match_before; ASSUMED: its `for m in find_from(..)` loop is outside what Verus accepts and does not close under Kani)
+/// find_last_match_before; assumed here: its `for m in find_from(..)` loop is outside what Verus accepts; checked, bounded, by the Kani obligation
+/// j6_find_last_match_before)
 pub uninterp spec fn last_match_before(re: &Regex, text: &str, pos: int) -> Option<Match>;
 
 impl<'r, 't> RegexSearcher<'r, 't> {
